@@ -9,6 +9,8 @@ all its states, is a source describing it (`expand_minSource`).  Joined here (co
 -/
 import AutomataVerif.Proofs.Subset
 import AutomataVerif.Proofs.MinifyExpand
+import AutomataVerif.Proofs.Rename
+import AutomataVerif.Proofs.ExpandValid
 
 namespace AV
 namespace C07
@@ -45,6 +47,57 @@ theorem toDFAMin_core {n : NFA σ α} (wf : n.WF) (ps : n.PyShape) (pick : List 
   have S := toDFA_minSource wf ps
   exact ⟨S.valid pick, S.pyShape pick,
     fun w => minifyCore_accepts S.hyp S.rows_nodup (hopcroft_nerode S.hyp pick) w⟩
+
+/-! ### the default options: `_minify` on the RENUMBERED subset DFA -/
+
+/-- Every state of the renumbered subset DFA is reached, inside the renumbered DFA, by a
+word (the BFS of `_expand_dfa` only names states it has discovered). -/
+theorem toDFA_renumber_reach {n : NFA σ α} (wf : n.WF) :
+    ∀ q ∈ n.toDFA.renumber.states,
+      ∃ w, n.toDFA.renumber.run (some n.toDFA.renumber.init) w = some q := by
+  have wfD : n.toDFA.WF :=
+    expand_wf n.subsetFinal n.syms (subset_expandHyp n (n.closure n.init))
+      (fun u _ => subsetSucc_keys_sub wf u)
+  intro q hq
+  obtain ⟨s, hs, rfl⟩ := List.mem_map.mp (show q ∈ n.toDFA.states.map _ from hq)
+  obtain ⟨w, hw⟩ := expand_all_reachable n.subsetFinal n.syms
+    (subset_expandHyp n (n.closure n.init)) s hs
+  refine ⟨w, ?_⟩
+  show n.toDFA.renumber.run (some (indexOf n.toDFA.init n.toDFA.states)) w = _
+  rw [renumber_run wfD w n.toDFA.init wfD.initOk]
+  have : n.toDFA.run (some n.toDFA.init) w = some s := hw
+  rw [this]; rfl
+
+/-- The arguments with which `from_nfa()` — default options `retain_names=False,
+minify=True` — calls `_minify` (the renumbered table with all its states) are a source
+describing the renumbered subset DFA. -/
+theorem toDFA_renumber_minSource {n : NFA σ α} (wf : n.WF) (ps : n.PyShape) :
+    MinSource n.toDFA.renumber n.toDFA.renumber.states n.toDFA.renumber.finals := by
+  have hyp := subset_expandHyp n (n.closure n.init)
+  have wfD : n.toDFA.WF :=
+    expand_wf n.subsetFinal n.syms hyp (fun u _ => subsetSucc_keys_sub wf u)
+  have psD : n.toDFA.PyShape := expand_pyShape n.subsetFinal n.syms hyp ps.syms_nodup
+  have hk : ∀ k ∈ akeys n.toDFA.trans, k ∈ n.toDFA.states := by
+    intro k hk
+    have : akeys n.toDFA.trans = n.toDFA.states := C04.expand_keys_eq_states n.subsetFinal n.syms
+    rw [← this]; exact hk
+  refine minSource_of_trim (renumber_wf wfD) ?_ (toDFA_renumber_reach wf)
+  rw [C04.renumber_eq_rename]
+  exact C04.rename_pyShape _ wfD psD (C04.renumber_injOn n.toDFA hk)
+
+/-- `_minify` as called by `from_nfa()` with the default options: valid, duplicate-free,
+and with the language of the NFA — for every pop order `pick`. -/
+theorem toDFAMinRenum_core {n : NFA σ α} (wf : n.WF) (ps : n.PyShape) (pick : List Nat → Nat) :
+    (n.toDFAMinRenum pick).validate = .ok () ∧ (n.toDFAMinRenum pick).PyShape ∧
+    ∀ w, (n.toDFAMinRenum pick).accepts w = n.accepts w := by
+  have S := toDFA_renumber_minSource wf ps
+  have wfD : n.toDFA.WF :=
+    expand_wf n.subsetFinal n.syms (subset_expandHyp n (n.closure n.init))
+      (fun u _ => subsetSucc_keys_sub wf u)
+  refine ⟨S.valid pick, S.pyShape pick, fun w => ?_⟩
+  show (minifyCore n.toDFA.renumber.states n.toDFA.renumber.syms n.toDFA.renumber.trans
+    n.toDFA.renumber.init n.toDFA.renumber.finals pick).accepts w = _
+  rw [S.accepts pick w, renumber_accepts wfD w, toDFA_accepts wf ps w]
 
 end C07
 end AV
